@@ -1109,9 +1109,9 @@ public:
       if (memcmp(l.span.rx(), l.model.data(), l.model.size()) != 0) { r.sem = "JIT memory read back through the rx mapping differs from what was written"; return; }
       r.bytes += l.model;
     }
-    JitAllocator::Statistics st = ja->statistics();
-    put_u64(r.bytes, st.allocation_count());
-    put_u64(r.bytes, st.used_size());
+    // allocator statistics are not part of the output: they depend on the block-retention history (and on recorded C09 findings:
+    // reset() keeps allocation_count / empty_block_count)
+    (void)ja->statistics();
     r.full = r.bytes;
   }
 
